@@ -266,11 +266,164 @@ def run_num(case):
     return {"err": [], "out": [fhex(v) for v in out.reshape(-1).tolist()], "shape": list(out.shape), "ran": len(ran)}
 
 
+# ------------------------------------------------------------------ numeric hooks over operation sequences
+NDT = {0: torch.bool, 1: torch.int16, 2: torch.int32, 3: torch.int64, 4: torch.float32, 5: torch.float64}
+NDTR = {v: k for k, v in NDT.items()}
+
+
+class PlainObj:
+    """an intermediate object on the attribute path that is not an nn.Module"""
+
+
+class SeqRoot(Module):
+    def forward(self):
+        return None
+
+
+def _param_class(base, name):
+    """inferno-style parameter target (cf. WeightMixin): parameter `<name>_`, property `<name>` whose setter
+    assigns `.data`"""
+    def getter(self):
+        return getattr(self, name + "_")
+
+    def setter(self, value):
+        getattr(self, name + "_").data = value
+    return type("ParamHolder_" + name, (base,), {name: property(getter, setter)})
+
+
+def mk_tensor(dt, shape, vals):
+    return torch.tensor(vals, dtype=torch.float64).reshape(shape).to(NDT[dt])
+
+
+def build_owner(kind, root, storage, name, tensor):
+    """the object holding the final attribute"""
+    if storage in ("param", "param_direct") or storage == "buffer" or kind == "module" or root:
+        base = SeqRoot if root else Holder
+        if storage == "param":
+            o = _param_class(base, name)()
+            o.register_parameter(name + "_", nn.Parameter(tensor, False))
+        else:
+            o = base()
+            if storage == "buffer":
+                o.register_buffer(name, tensor)
+            elif storage == "param_direct":
+                o.register_parameter(name, nn.Parameter(tensor, False))
+            else:
+                setattr(o, name, tensor)
+        return o
+    o = PlainObj()
+    setattr(o, name, tensor)
+    return o
+
+
+def build_tree(case, comps, tensor, root):
+    """object for path components `comps` (last = tensor attribute)"""
+    if len(comps) == 1:
+        return build_owner(case["inter"], root, case["storage"], comps[0], tensor)
+    child = build_tree(case, comps[1:], tensor, False)
+    o = SeqRoot() if root else (Holder() if case["inter"] == "module" else PlainObj())
+    setattr(o, comps[0], child)
+    return o
+
+
+def enc_val(t):
+    t = t.detach()
+    return [NDTR.get(t.dtype, 9), list(t.shape), [fhex(v) for v in t.reshape(-1).to(torch.float64).tolist()]]
+
+
+def bound(b):
+    if b is None:
+        return None
+    return int(b["v"]) if b["int"] else float(b["v"])
+
+
+def run_nseq(case):
+    path = case["path"]
+    attr = ".".join(path)
+    root = build_tree(case, path, mk_tensor(case["dtype"], case["shape"], case["data"]), True)
+    kw = dict(train_update=bool(case["te"]), eval_update=bool(case["ee"]), as_prehook=bool(case["as_pre"]))
+    RAN.clear()
+    if case["hook"] == "clamp":
+        hk = CountClamping(root, attr, bound(case["lo"]), bound(case["hi"]), **kw)
+    else:
+        dim = case["dim"]
+        hk = CountNormalization(root, attr, parse_order(case["order"]), case["scale"],
+                                tuple(dim) if isinstance(dim, list) else dim, case["eps"], **kw)
+
+    def walk(n):
+        o = root
+        for p in path[:n]:
+            o = getattr(o, p)
+        return o
+
+    def observe(err):
+        try:
+            val = enc_val(walk(len(path)))
+        except Exception as ex:  # noqa
+            val = ["unreadable", f"{type(ex).__name__}: {ex}"[:100]]
+        return {"err": err, "ran": len(RAN), "val": val,
+                "flags": [int(bool(hk.registered)), int(bool(hk.trainexec)), int(bool(hk.evalexec)), int(root.training)]}
+
+    tr = [observe([])]
+    for op in case["ops"]:
+        k = op[0]
+        err = []
+        try:
+            if k == "call":
+                root()
+            elif k == "manual":
+                hk(bool(op[1]), bool(op[2]))
+            elif k == "train":
+                root.train(bool(op[1]))
+            elif k == "reg":
+                hk.register()
+            elif k == "dereg":
+                hk.deregister()
+            elif k == "exec":
+                if op[1]:
+                    hk.trainexec = bool(op[2])
+                else:
+                    hk.evalexec = bool(op[2])
+            elif k == "setdata":
+                t = mk_tensor(op[1], case["shape"], op[2])
+                if case["storage"] == "param_direct":
+                    t = nn.Parameter(t, False)
+                setattr(walk(len(path) - 1), path[-1], t)
+            elif k == "replace":
+                lvl = op[1]            # replace the object at path[lvl] (an intermediate component)
+                sub = build_tree(case, path[lvl + 1:], mk_tensor(op[2], case["shape"], op[3]), False)
+                setattr(walk(lvl), path[lvl], sub)
+            elif k == "setparam":
+                name, v = op[1], op[2]
+                if name in ("lo", "hi"):
+                    setattr(hk, "clampmin" if name == "lo" else "clampmax", bound(v))
+                elif name == "order":
+                    hk.order = parse_order(v)
+                elif name == "dim":
+                    hk.dim = tuple(v) if isinstance(v, list) else v
+                elif name == "scale":
+                    hk.scale = v
+                elif name == "eps":
+                    hk.eps = v
+                else:
+                    raise AssertionError(name)
+            else:
+                raise AssertionError(k)
+        except AssertionError:
+            raise
+        except Exception as ex:  # noqa
+            err = err_of(ex)
+        tr.append(observe(err))
+    return {"trace": tr}
+
+
 def handler(payload):
     res = []
     for c in payload["cases"]:
         if c["kind"] == "sm":
             res.append(run_sm(c))
+        elif c["kind"] == "nseq":
+            res.append(run_nseq(c))
         else:
             res.append(run_num(c))
     return res
